@@ -630,6 +630,10 @@ pub struct Cb {
     /// interpolant evaluated at xold + theta (x - xold) for each theta in `thetas`
     pub interp: Vec<Vec<f64>>,
     pub action: Option<Action>,
+    /// copy of the dense coefficients of the step (when keep_seg)
+    pub cont: Vec<f64>,
+    /// (xold, h) the interpolant itself reports
+    pub step_params: Option<(f64, f64)>,
 }
 
 pub struct RecSolOut<'p, 'a> {
@@ -639,11 +643,12 @@ pub struct RecSolOut<'p, 'a> {
     /// (callback index, action)
     pub script: Vec<(usize, Action)>,
     pub max_cbs: usize,
+    pub keep_seg: bool,
 }
 
 impl<'p, 'a> RecSolOut<'p, 'a> {
     pub fn new(probe: Option<&'p Probe<'a>>) -> Self {
-        RecSolOut { probe, cbs: Vec::new(), thetas: Vec::new(), script: Vec::new(), max_cbs: 2_000_000 }
+        RecSolOut { probe, cbs: Vec::new(), thetas: Vec::new(), script: Vec::new(), max_cbs: 2_000_000, keep_seg: false }
     }
 }
 
@@ -652,7 +657,13 @@ impl<'p, 'a> SolOut for RecSolOut<'p, 'a> {
         let idx = self.cbs.len();
         let calls = self.probe.map(|p| p.total_ode()).unwrap_or(0);
         let mut interp = Vec::new();
+        let mut cont = Vec::new();
+        let mut step_params = None;
         if let Some(ip) = interpolant {
+            step_params = Some(ip.step_params());
+            if self.keep_seg {
+                cont = ip.to_segment().cont;
+            }
             for &th in &self.thetas {
                 let xi = if th == 0.0 {
                     xold
@@ -693,6 +704,8 @@ impl<'p, 'a> SolOut for RecSolOut<'p, 'a> {
             calls_at_entry: calls,
             interp,
             action,
+            cont,
+            step_params,
         });
         if self.cbs.len() > self.max_cbs {
             std::panic::panic_any(BudgetExceeded);
